@@ -216,6 +216,9 @@ def _simplify(t):
             and t[2][0][1] in (("builtin", "list"), ("builtin", "tuple")) and len(t[2][0][2]) == 1 and t[2][0][2][0][0] == "call" \
             and t[2][0][2][0][1] == ("ext", "itertools.repeat") and len(t[2][0][2][0][2]) == 2 and not t[2][0][2][0][3]:
         return t[2][0][2][0][2][1]  # len(list(repeat(x, n))) is n
+    if t[0] == "call" and t[1] == ("builtin", "isinstance") and len(t[2]) == 2 and not t[3] and (
+            t[2][1] == ("builtin", "object") or (t[2][1][0] in ("tuple", "list") and ("builtin", "object") in t[2][1][1])):
+        return TRUE  # everything is an object: the catch-all row of a table of type tests
     if t[0] == "cmp" and t[2] == t[3] and t[1] in ("eq", "le"):
         return TRUE
     if t[0] == "cmp" and t[2] == t[3] and t[1] in ("ne", "lt"):
